@@ -210,6 +210,9 @@ def run_case(case, tier):
             d.update(iso=case["iso"], strategy=case["strategy"], shape=case["shape"])
             viol.append({"mech": mech, "msg": "%s/%s/%s %s" % (case["iso"], case["strategy"], case["shape"], msg), "data": d})
 
+    for line in (h.get("wrapper_diff") or [])[:3]:
+        bad("wrapper_series_differ_from_direct_run", "through CalculateFeedAndMeat: " + line)
+
     animals, N, calls = h["animals"], h["N"], h["feed_calls"]
     ns = len(animals)
     partial = full = zero = 0
